@@ -6,5 +6,9 @@ python3 tools/ingest_seeded.py auto $wt $sfx 2>&1 | grep -E "KEEP|REJECT|INCOMPL
 for id in $(grep "filed as" /tmp/ingest_round.$$ | awk '{print $3}'); do
   python3 tools/run_mutants.py --only $id -v 2>&1 | grep -v "^{" | cut -c1-300 | head -8
 done
+if grep -q "REJECT\|INCOMPLETE" /tmp/ingest_round.$$; then
+  echo "NOTE: $wt kept (a change was rejected by the automatic validation: it may need a special configuration; validate it by hand, then remove the worktree)"
+else
+  git -C /repo worktree remove --force $wt; git -C /repo worktree prune
+fi
 rm -f /tmp/ingest_round.$$
-git -C /repo worktree remove --force $wt; git -C /repo worktree prune
